@@ -4,7 +4,7 @@ use crate::bridge::cert_dir;
 
 #[cfg(feature = "native")]
 pub type Cert = native_tls::Certificate;
-#[cfg(all(feature = "rustls", not(feature = "native")))]
+#[cfg(all(feature = "rustls-any", not(feature = "native")))]
 pub type Cert = rustls_pki_types::CertificateDer<'static>;
 
 #[cfg(feature = "native")]
@@ -13,7 +13,7 @@ pub fn load_cert(name: &str) -> Cert {
     native_tls::Certificate::from_pem(&pem).expect("parse fixture cert")
 }
 
-#[cfg(all(feature = "rustls", not(feature = "native")))]
+#[cfg(all(feature = "rustls-any", not(feature = "native")))]
 pub fn load_cert(name: &str) -> Cert {
     let pem = std::fs::read(cert_dir().join(format!("{name}.cert.pem"))).expect("read fixture cert");
     let mut rd = &pem[..];
